@@ -71,10 +71,9 @@ fn main() -> Result<(), Box<dyn std::error::Error>> {
     let mut r = cram::io::reader::Builder::default().set_reference_sequence_repository(repo).build_from_reader(std::io::Cursor::new(bytes));
     let h = r.read_header()?;
     let offset = r.position()?;
-    let index: crai::Index = vec![
-        crai::Record::new(Some(0), Position::new(1), 4, offset, 0, 0),
-        crai::Record::new(Some(1), Position::new(1), 4, offset, 0, 0),
-    ];
+    let _ = offset;
+    // (the index entries carry the landmark of their slice; a query reads the indexed slice only)
+    let index: crai::Index = cram::fs::index(&path)?;
     let region = "sq0:1-5".parse()?;
     let q = r.query(&h, &index, &region)?;
     for res in q.records() {
@@ -84,6 +83,32 @@ fn main() -> Result<(), Box<dyn std::error::Error>> {
             rec.name().map(|n| n.to_string()),
             rec.reference_sequence_id()
         );
+    }
+
+    // M1: two slices in one container (as other writers produce; here hook H4): each record once?
+    #[cfg(noodles_verif)]
+    {
+        let refs = vec![
+            fasta::Record::new(Definition::new("sq0", None), FaSequence::from(b"ACGTACGTAC".to_vec())),
+            fasta::Record::new(Definition::new("sq1", None), FaSequence::from(b"TTGACCAGTA".to_vec())),
+        ];
+        let repo = fasta::Repository::new(refs);
+        let mut w = cram::io::writer::Builder::default().set_reference_sequence_repository(repo.clone()).build_from_writer(Vec::new());
+        w.verif_set_layout(1, 2);
+        w.write_header(&header)?;
+        w.write_alignment_record(&header, &rec("a", 0, b"ACGT"))?;
+        w.write_alignment_record(&header, &rec("b", 0, b"ACGT"))?;
+        w.try_finish(&header)?;
+        let mut tmp = tempfile::NamedTempFile::new()?;
+        tmp.write_all(&w.into_inner())?;
+        tmp.flush()?;
+        let index = cram::fs::index(tmp.path())?;
+        println!("M1 index: {} entries, offsets {:?}, landmarks {:?}", index.len(), index.iter().map(|r| r.offset()).collect::<Vec<_>>(), index.iter().map(|r| r.landmark()).collect::<Vec<_>>());
+        let mut rd = cram::io::reader::Builder::default().set_reference_sequence_repository(repo).build_from_path(tmp.path())?;
+        let hh = rd.read_header()?;
+        let region = "sq0".parse()?;
+        let names: Vec<String> = rd.query(&hh, &index, &region)?.records().map(|r| r.map(|r| r.name().map(|n| n.to_string()).unwrap_or_default())).collect::<Result<_, _>>()?;
+        println!("M1 query(sq0) on a container with two one-record slices returned {names:?}");
     }
 
     // X1/X2: fs::index on a multi-reference slice that holds a placed read without bases (flag 0x4,
